@@ -112,9 +112,40 @@ func deref(v reflect.Value) reflect.Value {
 	return v
 }
 
+// refShape: the value is marked in a field of type wide and reaches the destination field through a local reference
+// (backward, or forward when the destination field comes first in the document).
+func refShape(name string, wide reflect.Type, forward bool) c19Shape {
+	doc := func(es ...ev.E) []ev.E { return append(append([]ev.E{ev.EBD(), ev.EV(0)}, es...), ev.EED()) }
+	return c19Shape{name,
+		func(e ev.E) []ev.E {
+			if forward {
+				return doc(ev.EMap(), ev.EStr("n"), ev.ERef("a"), ev.EStr("w"), ev.EMarker("a"), e, ev.EEnd())
+			}
+			return doc(ev.EMap(), ev.EStr("w"), ev.EMarker("a"), e, ev.EStr("n"), ev.ERef("a"), ev.EEnd())
+		},
+		func(t interface{}) interface{} {
+			st := reflect.StructOf([]reflect.StructField{{Name: "W", Type: wide}, {Name: "N", Type: reflect.TypeOf(t)}})
+			return reflect.New(st).Elem().Interface()
+		},
+		func(v reflect.Value) reflect.Value {
+			v = deref(v)
+			if !v.IsValid() || v.Kind() != reflect.Struct {
+				return reflect.Value{}
+			}
+			return v.Field(1)
+		}}
+}
+
 func c19Shapes() []c19Shape {
 	doc := func(es ...ev.E) []ev.E { return append(append([]ev.E{ev.EBD(), ev.EV(0)}, es...), ev.EED()) }
+	var iface interface{}
 	return []c19Shape{
+		refShape("ref-from-int64-field", reflect.TypeOf(int64(0)), false), refShape("ref-from-uint64-field", reflect.TypeOf(uint64(0)), false),
+		// (no float64 carrier: what a reference to a value that was rounded into a float field designates is not fixed by the statement)
+		refShape("ref-from-interface-field", reflect.TypeOf(&iface).Elem(), false),
+		refShape("ref-from-bigint-field", reflect.TypeOf((*big.Int)(nil)), false),
+		refShape("forward-ref-to-int64-field", reflect.TypeOf(int64(0)), true), refShape("forward-ref-to-uint64-field", reflect.TypeOf(uint64(0)), true),
+		refShape("forward-ref-to-interface-field", reflect.TypeOf(&iface).Elem(), true),
 		{"top", func(e ev.E) []ev.E { return doc(e) }, func(t interface{}) interface{} { return t }, func(v reflect.Value) reflect.Value { return v }},
 		{"slice-element", func(e ev.E) []ev.E { return doc(ev.EList(), e, ev.EEnd()) },
 			func(t interface{}) interface{} {
